@@ -18,8 +18,9 @@ CLAIMS = {
          "(CD1); chunk writer and decoder use the same header layout, tiling [0,7), checksum over everything after the sum (CD2); the writer's pad "
          "predicate and the sequential reader's skip predicate have equal truth sets over the whole domain [0,32768) (CD3, exhaustive constant folding of "
          "the extracted formulas); payload fits the 16-bit length field (CD5); every writing DataFile method advances the logical size on success (CD7); "
-         "one Write call per append (WR1); writer emits exactly the declared chunk types and both readers stop on the same set (CT); clean EOF and decode "
-         "window (BD2, BD4). The round trip over all (offset,length) pairs is arithmetic and is not decided (no solver).", "3/C11, 2.6"),
+         "one Write call per append (WR1); writer emits exactly the declared chunk types, both readers stop on the same set and validate the "
+         "Full/First-then-Middle/Last sequence (CT); pad test per record and tail test after every record end (CD3b/c); clean EOF, EOF by size only, decode "
+         "window (BD2, EOF1, BD4). The round trip over all (offset,length) pairs is arithmetic and is not decided (no solver).", "3/C11, 2.6"),
  "C12": ("dominating-guard facts (bounds, sign), CRC-gating dominance, who-may-call, per-property error-discipline (PS8)",
          "Decides: in the pre-checksum decoder every access to the input is dominated by a length guard and the stored-length-derived bound cannot wrap "
          "(BD1); unsigned conversion of fileSize-offset is guarded inside the loop in both readers (BD2); payload leaves the decoder only on the "
@@ -37,7 +38,7 @@ CLAIMS = {
          "replay, hint load) the position is the one returned by the appending / flushing / decoding call made for the record carrying exactly that key "
          "(VF1); a successful tombstone append in Delete is always followed by the index delete of the same key (PS-DEL); positional reads of the DB API "
          "dispatch on pos.Fid (VF2); every append is preceded by the size check with rotation on overflow (PS7); no active-file alias is used across a "
-         "rotation (VF7). Byte equality, chunk arithmetic and all operation sequences are not decided.", "3/C01, 2.4"),
+         "rotation (VF7); rotation registers the outgoing file (RO1); pooled records are reset (POOL); Get results are fresh (RT2). Byte equality, chunk arithmetic and all operation sequences are not decided.", "3/C01, 2.4"),
  "C02": ("value-provenance + dominance rules over the replay loop, batch tagging, pool invariant; guard facts for EOF; codec agreement",
          "Decides necessary structural conditions of restart: every record a batch frames (staged and seal) carries the batch id (VF3), recovery applies "
          "tagged records only on the Type==BatchFinished edge, removes the applied entry and keeps its pending map across files (VF3c/e/f), replayed "
@@ -66,7 +67,8 @@ CLAIMS = {
          "every access to an inferred mutable DB/Batch field through a shared base holds the owner lock in the needed mode (LK1); no field mixes "
          "sync/atomic and plain access (LK2); no lock is released unheld or re-acquired while held, entry lockset = exit lockset on every path, "
          "NewBatch/Commit preserve the protocol invariant and a committed batch performs no effect (LK5/LK8); lock order acyclic (LK6); shard "
-         "lock modes (LK7); merge flag test-and-set in one section (LK4); ListKeys/Fold/NewIterator build their result from one snapshot (VF6). "
+         "lock modes (LK7); merge flag test-and-set in one section (LK4); ListKeys/Fold/NewIterator build their result from one snapshot (VF6); "
+         "every method call on the active file holds the lock (LK10); the lock-free read path uses private buffers (LK11); scratch DBs are isolated (LK9). "
          "Races inside DataFile/MMap internals, all run-time panics and liveness are not decided.", "3/C09, 2.2"),
  "C15": ("interprocedural retention / freshness analysis of byte slices (alias propagation through sub-slices, appends, stored-then-loaded fields, carrier objects; kill by later or deferred overwrite) into the btree/skiplist dependencies",
          "Decides the ownership property almost whole: for every []byte parameter of DB.Put/Delete/Get and Batch.Put/Delete/Get no alias is stored into "
@@ -94,7 +96,7 @@ CLAIMS = {
          "the index points exactly at it in Fid, BlockID and Offset (MG3); output ids stay strictly below the first non-participating id incl. equality (MG1); "
          "the marker id is the one captured with the participating-file snapshot (MG2); rewritten records are untagged (VF3d); marker created after hint and "
          "all output files are closed, leftovers removed first (PS5a/f); adoption gated, restartable, complete before cleanup, same names (PS5c-g); merge flag "
-         "test-and-set in one section and cleared only by its owner (LK4). Equality of mappings across adoption shapes is not decided.", "3/C06"),
+         "test-and-set in one section and cleared only by its owner (LK4); replay skips strictly below the first-unhinted id (RP1). Equality of mappings across adoption shapes is not decided.", "3/C06"),
  "C07": ("ordering rules over Merge and the adoption function: dominance, natural-loop exit analysis, deferred-call scan, Stat-gating",
          "Decides the structural skeleton of crash safety of merge/adoption: marker last, after durable closes of hint and every output file (PS5a, PS2); "
          "leftovers of a crashed merge removed before reuse (PS5f); every adoption mutation dominated by the marker-id != 0 edge (PS5c); originals removed only "
@@ -123,7 +125,8 @@ CLAIMS = {
          "passes its own tag to the lookup, which returns the wrong-type error on the mismatch edge (TB4); structure updates are batches whose records and seal "
          "are tagged and replayed under their seal (VF3).", "3/C19"),
  "C20": ("MMap size-reset typestate, backup argument/lock table, copy-completeness rule, error discipline of the copy",
-         "Decides: an MMap method truncates to the logical size only when unmapped and invalidates the mapping bound (TB6); Backup's size resets and copy "
+         "Decides: an MMap method truncates to the logical size only when unmapped and invalidates the mapping bound (TB6); every MMap method copes with the "
+         "unmapped state (TB6b); Backup resets the active and every rotated file; its size resets and copy "
          "are dominated by the database WRITER lock; source = DirPath, destination = parameter, lock file excluded (TB7); the walk callback skips an entry "
          "only for the root / an exclusion match (CP1); copy errors propagate (PS8). Equality of the copy with the source's mapping is not decided.", "3/C20"),
 }
